@@ -129,9 +129,10 @@ def run(tier):
     combos = [("recon-x", "extended", "arduino", "zonedb"), ("recon-x", "extended", "python", "zonedb"),
               ("recon-b", "basic", "arduino", "zonedb"), ("tz2025b", "extended", "python", "zonedb"),
               ("tz2025b", "basic", "arduino", "zonedb"), ("tz2025b", "extended", None, "zonelist"), ("tz2025b", "basic", None, "tzdb"),
-              ("features", "extended", "python", "zonedb"), ("features", "basic", "python", "zonedb"), ("features", "extended", "arduino", "zonedb")]
+              ("features", "extended", "python", "zonedb"), ("features", "basic", "python", "zonedb"), ("features", "extended", "arduino", "zonedb"),
+              ("tz2025b", "basic", "python", "zonedb")]        # basic scope with the script's own default granularities (America/Moncton: AT 0:01)
     if not q:
-        combos += [("tz2025b", "extended", "arduino", "zonedb"), ("tz2025b", "basic", "python", "zonedb"), ("recon-b", "basic", "python", "zonedb"),
+        combos += [("tz2025b", "extended", "arduino", "zonedb"), ("recon-b", "basic", "python", "zonedb"),
                    ("recon-x", "basic", "arduino", "zonedb"), ("recon-x", "extended", None, "tzdb")]
         combos += [("mutant%d" % i, sc, lang, "zonedb") for i in range(6) for sc in ("basic", "extended") for lang in ("arduino", "python")]
     for name, scope, lang, action in combos:
@@ -189,7 +190,7 @@ def run(tier):
                     v.violation("c20:multi-action-output-differs:%s" % f, "a file written by an invocation with several --action values differs from the one a single-action invocation writes",
                                 {"multi": mt, "single": st, "file": f})
     # ------------------------------------------------------------------ B/C/D: python tables, zone list, counters
-    for name, scope in (("recon-x", "extended"), ("tz2025b", "extended"), ("features", "extended"), ("features", "basic")) + ((("recon-b", "basic"),) if not q else ()):
+    for name, scope in (("recon-x", "extended"), ("tz2025b", "extended"), ("tz2025b", "basic"), ("features", "extended"), ("features", "basic")) + ((("recon-b", "basic"),) if not q else ()):
         tag = "%s-%s-python-zonedb" % (name, scope)
         out = outputs.get(tag)
         if out is None:
